@@ -458,3 +458,37 @@ example : (⟨[150, 226], 2, .normal⟩ : Fetch).Settled ∧ (⟨[150, 226], 1, 
   constructor <;> simp [Fetch.Settled]
 
 end Wpull.Ftp
+
+namespace Wpull.Ftp
+
+/-- whatever six numbers a server writes into its PASV reply: an address that is accepted has a port that IS a port
+(at most 65535; `connect()` raises OverflowError, not a network error, for anything larger) and host numbers that are
+octets -/
+theorem pasv_address_in_range (ns : List Nat) (host : List Nat) (port : Nat)
+    (h : parseAddress ns = .ok (host, port)) : port ≤ 65535 ∧ ∀ o ∈ host, o ≤ 255 := by
+  unfold parseAddress at h
+  split at h
+  · rename_i h1 h2 h3 h4 p1 p2
+    split at h
+    · cases h
+    · rename_i hn
+      simp only [List.any_cons, List.any_nil, Bool.or_false, Bool.or_eq_true, decide_eq_true_eq, not_or, Nat.not_lt] at hn
+      injection h with h
+      injection h with hh hp
+      subst hh hp
+      obtain ⟨a1, a2, a3, a4, a5, a6⟩ := hn
+      refine ⟨?_, ?_⟩
+      · have : p1 <<< 8 ||| p2 < 2 ^ 16 := by
+          apply Nat.or_lt_two_pow
+          · rw [Nat.shiftLeft_eq]; omega
+          · omega
+        omega
+      · intro o ho
+        simp only [List.mem_cons, List.not_mem_nil, or_false] at ho
+        rcases ho with rfl | rfl | rfl | rfl <;> assumption
+  · cases h
+
+example : parseAddress [10, 0, 0, 1, 7, 228] = .ok ([10, 0, 0, 1], 2020) := by decide
+example : parseAddress [10, 0, 0, 1, 999, 999] = .error .ValueError := by decide
+
+end Wpull.Ftp
